@@ -1019,19 +1019,19 @@ def nt_fos_rej(case):
 
 # ------------------------------------------------------------------------------------------
 SUBCHECKS = [
-    SubCheck("fidelity", check_fidelity, _pair_case, nt_pair, quick=6000, thorough=100000),
-    SubCheck("trace_distance", check_trace_distance, _pair_case, nt_pair, quick=6000, thorough=100000),
-    SubCheck("trace_triangle", check_triangle, _triple_case, nt_triple, quick=4000, thorough=80000),
-    SubCheck("hilbert_schmidt", check_hilbert_schmidt, _pair_case, nt_pair, quick=4000, thorough=60000),
-    SubCheck("hs_inner_product", check_hs_inner_product, _hsip_case, nt_hsip, quick=2000, thorough=30000),
-    SubCheck("helstrom_holevo", check_helstrom_holevo, _pair_case, nt_pair, quick=4000, thorough=60000),
+    SubCheck("fidelity", check_fidelity, _pair_case, nt_pair, quick=5000, thorough=90000),
+    SubCheck("trace_distance", check_trace_distance, _pair_case, nt_pair, quick=5000, thorough=90000, shards=8),
+    SubCheck("trace_triangle", check_triangle, _triple_case, nt_triple, quick=4000, thorough=70000, shards=8),
+    SubCheck("hilbert_schmidt", check_hilbert_schmidt, _pair_case, nt_pair, quick=4000, thorough=60000, shards=8),
+    SubCheck("hs_inner_product", check_hs_inner_product, _hsip_case, nt_hsip, quick=2000, thorough=30000, shards=4),
+    SubCheck("helstrom_holevo", check_helstrom_holevo, _pair_case, nt_pair, quick=4000, thorough=60000, shards=8),
     SubCheck("bures_distance", check_bures_distance, _pair_case, nt_pair, quick=4000, thorough=60000),
     SubCheck("bures_angle", check_bures_angle, _pair_case, nt_pair, quick=4000, thorough=60000),
-    SubCheck("sub_fidelity", check_sub_fidelity, _pair_case, nt_pair, quick=6000, thorough=100000),
+    SubCheck("sub_fidelity", check_sub_fidelity, _pair_case, nt_pair, quick=5000, thorough=90000),
     SubCheck("matsumoto", check_matsumoto, _mats_strategy, nt_mats, quick=4000, thorough=60000),
     SubCheck("relations", check_relations, _rel_case, nt_rel, quick=4000, thorough=60000),
-    SubCheck("trace_norm", check_trace_norm, _tn_case, nt_tn, quick=4000, thorough=60000),
-    SubCheck("rejects", check_rejects, _rej_case, nt_rej, quick=4000, thorough=40000),
+    SubCheck("trace_norm", check_trace_norm, _tn_case, nt_tn, quick=4000, thorough=60000, shards=8),
+    SubCheck("rejects", check_rejects, _rej_case, nt_rej, quick=4000, thorough=40000, shards=8),
     SubCheck("fos_product", check_fos_product, _fos_case, nt_fos, quick=40, thorough=600, shards=8, case_timeout=60),
     SubCheck("fos_rejects", check_fos_rejects, _fos_rej_case, nt_fos_rej, quick=160, thorough=2400, shards=8, case_timeout=60),
 ]
